@@ -204,7 +204,8 @@ def verify_models(ctx, cfg, keys=None, rule="MODEL"):
         if b is None:
             continue  # helper not compiled in this configuration (or removed: its callers then fall back to opaque values)
         models = {k: v for k, v in MODELS.items() if k != key}
-        an = Analysis(db, b, models).run()
+        # the helper's own private helpers are expanded, as in every other analysis (a model is a statement about the code the helper runs)
+        an = Analysis(db, ctx.inlined(db, b), models).run()
         st = an.entry_state()
         # build a pseudo call site: arguments are the helper's own parameters
         args = [st.mem[(("local", i), ())] for i in range(1, an.mir["arg_count"] + 1)]
